@@ -122,6 +122,13 @@ CLAIMS["C11"] = ("other", "lock-order graph over the resolved call graph + acqui
     "initialisation ticket is released on every path and losers yield; writers meeting a forwarding marker move on.",
     "DESIGN.md §4 C11", TRUST + " The SeqCst requirement of the park protocol's store-buffering pattern is deliberately not armed (DESIGN §7).")
 
+CLAIMS["C05"] = ("other", "ESP path-sensitive typestate over MIR + provenance (power-of-two) analysis",
+    "Clauses: the entry count is adjusted exactly once per link (put: won empty-bin CAS, append, tree insert) and per unlink "
+    "(compute_if_present, replace_node; clear per walked node), on every feasible path -- infeasible paths pruned by tracking the flags the "
+    "code branches on; one finisher publishes a resize and clears the resizing state; every table length has power-of-two provenance. "
+    "Not decided: iteration = lookup, entry placement (index i vs i+n), absence of duplicate keys, 'no forwarding marker left behind'.",
+    "DESIGN.md §4 C05", TRUST + " ESP tracks the named bool/Option flag locals of each body; an untracked correlation would show up as a reported path.")
+
 NOT_APPLICABLE = {
     "C02": "Quantifies over all operation sequences x hashers x capacities and asserts equality of run-time values (return values, "
            "contents) with a reference map; no path-, type- or call-graph-shaped clause carries it. Its only structural clause "
